@@ -92,4 +92,13 @@ CleanIsAtomic ==
 SelectionIsAtomic ==
   \A i \in 1..Len(gens) : (~gens[i].dirty /\ gens[i].cfg.fproc.kind = "none") =>
      Agrees(gens[i], SelSeq(gens[i].kind, gens[i].out), SelSeq(gens[i].kind, AtomicOut(gens[i], Dumps[gens[i].d], Tables)))
+
+\* ---- vacuity guards: each of these "never" statements must be VIOLATED (TLC shows a witness), otherwise the two properties
+\* above would hold for want of listings they talk about
+NeverCleanFinishedWithItems ==
+  ~ \E i \in 1..Len(gens) : gens[i].clean /\ gens[i].done /\ Len(gens[i].out) >= 2 /\ Len(gens) >= 2
+NeverDisturbedWithItems ==
+  ~ \E i \in 1..Len(gens) : ~gens[i].clean /\ ~gens[i].dirty /\ Len(gens[i].out) >= 2
+NeverKnownProcess ==
+  ~ \E i \in 1..Len(gens) : gens[i].clean /\ \E j \in 1..Len(gens[i].out) : "proc" \in DOMAIN gens[i].out[j] /\ gens[i].out[j].proc.known
 =============================================================================
